@@ -328,6 +328,25 @@ def run(repo: Repo, tier: str) -> Report:
         s = sites[k_]
         r_bind(rep, s, kernels[k_])
         rep.ob("R-BIND", AFILE, s.where(), f"{k_} receives {wa}", [ast.unparse(a) for a in s.args] == wa, f"{[ast.unparse(a) for a in s.args]}", f"{k_} args", line=s.line)
+    from ..cfg import CFG
+    cfg_m = CFG(m)
+
+    def site_guards(site):
+        for n in cfg_m.stmt_nodes():
+            if n.kind == "stmt" and any(c is site.call for c in ast.walk(n.stmt)):
+                return sorted((norm_stmt(g.stmt.test), arm) for g, arm in cfg_m.guards_of(n)
+                              if not (g.stmt.body and isinstance(g.stmt.body[-1], ast.Raise)))   # validation guards are not selection
+        return None
+    P_GIVEN = ("p", "p is not None")
+    sel = {k_: site_guards(sites[k_]) for k_ in want_args}
+    def has(gs, tests, arm):
+        return gs is not None and any((t, arm) in gs for t in tests)
+    ok_sel = (has(sel["ws2doptvplc"], ("lc is not None",), True) and len(sel["ws2doptvplc"]) == 1
+              and has(sel["ws2doptvp"], ("lc is not None",), False) and has(sel["ws2doptvp"], P_GIVEN, True) and len(sel["ws2doptvp"]) == 2
+              and has(sel["ws2doptv"], ("lc is not None",), False) and has(sel["ws2doptv"], P_GIVEN, False) and len(sel["ws2doptv"]) == 2)
+    rep.ob("R-FORMULA", AFILE, "WhittakerSmoother.whitsvc", "kernel selection: lc given -> lc kernel; else any p given -> asymmetric kernel; no p -> symmetric kernel", ok_sel,
+           f"sites run under {sel}: a value of p routed to the symmetric kernel yields a band that is not the asymmetric smoother at the reported lambda",
+           "whitsvc: kernel selection")
     assigns = [st for st in ast.walk(m) if isinstance(st, ast.Assign)]
     sg = [st for st in assigns if ast.unparse(st.targets[0]) == "ds_out['sgrid']"]
     rep.ob("R-FORMULA", AFILE, "WhittakerSmoother.whitsvc", "sgrid = log10(reported lambda) stored as float32", len(sg) == 1 and
